@@ -15,7 +15,7 @@ pub fn gen(seed: u64, _idx: u64, tier: Tier) -> Scenario {
     sc.knobs.insert("preempt".into(), *r.pick(&[0, 0, 10, 100]));
     sc.steps.push(Step::Connect { c: 0, inst: 0, buf: 0 });
     let keys: Vec<B> = vec![b("l1"), b("l2"), b("s1"), b("s2"), b("s3"), b("h1"), b("h2"), b("x"), B(vec![0xff, 0x00]), b("str")];
-    let elems: Vec<B> = vec![b("a"), b("b"), b("c"), b("a"), b("d"), b(""), B(vec![0, 0xff, b'\r', b'\n']), b("10"), b("-3"), b("9223372036854775807"), b("1.5"), b("e e")];
+    let elems: Vec<B> = vec![b("a"), b("b"), b("c"), b("a"), b("d"), b(""), B(vec![0, 0xff, b'\r', b'\n']), b("10"), b("-3"), b("9223372036854775807"), b("1.5"), b("e e"), b("+5"), b("05"), b("-0"), b(" 7")];
     let n = match tier { Tier::Quick => r.range(20, 150), Tier::Thorough => r.range(20, 300) };
     sc.steps.push(Step::Cmd { c: 0, a: vec![b("SET"), b("str"), b("v")], split: vec![] });
     for _ in 0..n {
